@@ -256,6 +256,9 @@ def render_canonical(spec, cls_suffix="", _providers_only=False, _uid=None):
                 body += ["    __hash__ = None      # e.g. a plain (non-frozen) dataclass"]
             else:
                 body += ["    def __hash__(self):", "        return 7"]
+        if prov == "model" and spec.get("eq_listeners") and zlib.crc32(str(spec["uid"]).encode()) % 3 == 0:
+            # ... and a model those value-object listeners compare equal to (it is still another object)
+            body.append("    _eqkey = 'same'")
         if zlib.crc32(str(spec["uid"]).encode()) % 7 == 0 and not any(
                 ln.lstrip().startswith(("name =", "def name(")) for ln in body):
             # every provider of this machine carries the same truthy `name` attribute (two plug-ins of
